@@ -422,6 +422,34 @@ func c16Workload(c *Check) []c16Prog {
 		out = append(out, c16Prog{key: "alone/" + k, src: map[string]string{"main.tsh": alone[k]}})
 		out = append(out, c16Prog{key: "alone-in-function/" + k, src: map[string]string{"main.tsh": wrapInFunc(alone[k])}})
 	}
+	// every statement form as the only statement of every kind of block (an expression whose value
+	// is not used may emit nothing, and the block still has to be well formed)
+	{
+		pre := "x := 1\ns := []int{1}\nt := \"abc\"\nfunc one() int {\n\treturn 1\n}\nfunc two() (int, int) {\n\treturn 1, 2\n}\nfunc vf() {\n}\n"
+		soles := []string{"5", "x", "t", "\"a\"", "`r`", "true", "nil", "(x)", "((x))", "itoa(5)", "itoa(x)", "len(t)", "len(s)", "exists(t)", "read(t)", "input()", "input(t)", "copy(s, s)", "x + 1", "x == 1", "!true", "x == 1 && true", "one()", "two()", "vf()", "@true()", "[]int{}", "[]int{1}",
+			"s", "x++", "x += 1", "x = 2", "y := 1", "var y int", "var y []int", "y, z := two()", "s[0] = 1", "print()", "print(x)", "panic(t)", "write(t, t)", "y := s[0]", "y := t[1:2]", "y := itoa(x)"}
+		blocks := map[string]string{
+			"func":      "func h() {\n\t$S\n}\nh()\n",
+			"func-int":  "func h() int {\n\t$S\n\treturn 1\n}\nprint(h())\n",
+			"if":        "if x == 1 {\n\t$S\n}\n",
+			"else":      "if x == 1 {\n\tprint(1)\n} else {\n\t$S\n}\n",
+			"else-if":   "if x == 1 {\n\tprint(1)\n} else if x == 2 {\n\t$S\n} else {\n\tprint(3)\n}\n",
+			"all-three": "if x == 1 {\n\t$S\n} else if x == 2 {\n\t$S\n} else {\n\t$S\n}\n",
+			"for-cond":  "for x < 0 {\n\t$S\n}\n",
+			"for-three": "for i := 0; i < 2; i++ {\n\t$S\n}\n",
+			"for-ever":  "for {\n\t$S\n\tbreak\n}\n",
+			"range":     "for i, v := range s {\n\t$S\n}\n",
+			"case":      "switch x {\ncase 1:\n\t$S\ncase 2:\n\t$S\ndefault:\n\t$S\n}\n",
+			"case-bool": "switch {\ncase x == 1:\n\t$S\n}\n",
+			"nested":    "func h() {\n\tif x == 1 {\n\t\tfor x < 0 {\n\t\t\t$S\n\t\t}\n\t} else {\n\t\t$S\n\t}\n}\nh()\n",
+			"top":       "$S\n",
+		}
+		for _, bk := range sortedKeys(blocks) {
+			for si, st := range soles {
+				out = append(out, c16Prog{key: fmt.Sprintf("sole-statement/%s/%d", bk, si), src: map[string]string{"main.tsh": pre + strings.ReplaceAll(blocks[bk], "$S", st)}})
+			}
+		}
+	}
 	// empty blocks everywhere
 	empties := []string{
 		"func f() {\n}\nf()\n", "if true {\n}\n", "if true {\n} else {\n}\n", "if true {\n} else if false {\n} else {\n}\n", "for {\n\tbreak\n}\n", "for i := 0; i < 2; i++ {\n}\n",
@@ -538,8 +566,11 @@ func checkC16(c *Check) {
 		trW := TranspileFile(mainPath, Batch, 30*time.Second)
 		if !trB.OK() || !trW.OK() {
 			c.Eval(id, false)
-			if pg.prog == nil || strings.HasPrefix(pg.key, "random/") {
-				// hand-written texts must be accepted; random programs with builtins too
+			if strings.HasPrefix(pg.key, "sole-statement/") && trB.Err != nil && trW.Err != nil && trB.Panic == "" && trW.Panic == "" {
+				// this family places every statement form everywhere; what the parser rejects (for both
+				// targets) is simply outside the quantifier "accepted programs"
+				c.Count("sole_statement_programs_rejected", 1)
+				return
 			}
 			msg := ""
 			if trB.Err != nil {
